@@ -23,6 +23,10 @@ for p in sorted((V / "notes").glob("C*.md")):
     notes.append(t)
 block("NOTES", "\n\n".join(notes))
 
+def _st(m):
+    return "missed (strengthening in progress)" if "in progress" in m.get("note", "") else "missed, then check strengthened"
+
+
 rows = ["| id | property | what the change needs to manifest | detected by |", "|---|---|---|---|"]
 for p in sorted((V / "seeded").glob("*/meta.json")):
     m = json.loads(p.read_text())
@@ -56,11 +60,11 @@ for pr in props:
     sdt = "-"
     if sd.exists():
         m = json.loads(sd.read_text())
-        sdt = "missed, then check strengthened" if m.get("note") else ("caught (monitor only in quick)" if "no-failing-input-found" in m["detected_by"] else "caught")
+        sdt = _st(m) if m.get("note") else ("caught (monitor only in quick)" if "no-failing-input-found" in m["detected_by"] else "caught")
     sd2 = V / "seeded" / f"{pid}-2" / "meta.json"
     if sd2.exists():
         m2 = json.loads(sd2.read_text())
-        sdt += "; round 2: " + ("missed, then check strengthened" if m2.get("note") else "caught")
+        sdt += "; round 2: " + (_st(m2) if m2.get("note") else ("caught (correspondence only, no input named)" if "no-failing-input-found" in m2["detected_by"] else "caught"))
     rows.append(f"| {pid} | {'proof' if pid in claimed else 'not claimed'} | {th} | {cases} | {fx} | {kn} | {sdt} |")
 block("STATUS", "\n".join(rows))
 (V / "DESIGN.md").write_text(d)
